@@ -47,6 +47,56 @@ func GenDaemon(prop string, seed uint64, tier string) *DaemonScenario {
 	}
 	use["clients"] = true
 	switch prop {
+	case "C14", "C15":
+		sc.Mode = "fuzz"
+		sc.N = r.Range(3, 4)
+		sc.T = r.Range(sc.N/2+1, sc.N)
+		sc.Extra = 1 // a daemon that never takes part: the "fresh" state
+		// hostile traffic in every state: before and during the key generation, while running
+		for k := r.Range(2, 5); k > 0; k-- {
+			t := int64(r.Range(500, int(g0)))
+			if r.Bool(50) {
+				t = at()
+			}
+			add(Act{AtMs: t, Kind: "fuzz", Node: r.Intn(sc.N + 1), A: int64(r.Range(5, 40))})
+		}
+		if r.Bool(40) {
+			n := r.Intn(sc.N)
+			t := at()
+			add(Act{AtMs: t, Kind: "stop_beacon", Node: n, S: "default"})
+			add(Act{AtMs: t + 200, Kind: "fuzz", Node: n, A: int64(r.Range(5, 30))})
+		}
+		use["stop"] = false
+		if prop == "C15" {
+			sc.Mode = "secrets"
+			if r.Bool(60) {
+				sc.Extra = 2
+				sc.Reshares = []ResharePlan{{AtRound: r.Range(2, 3), Join: []int{sc.N + 1}, NewT: r.Range((sc.N+1)/2+1, sc.N+1)}}
+				rounds = sc.Reshares[0].AtRound + 14 + (sc.KickoffS+3*sc.PhaseS)/sc.PeriodS
+				faultEnd = g0 + int64(rounds)*periodMs
+			}
+		}
+	case "C19":
+		sc.BeaconIDs = []string{"default", "second"}
+		if r.Bool(40) {
+			sc.BeaconIDs = append(sc.BeaconIDs, "third")
+		}
+		sc.N = r.Range(2, 3)
+		sc.T = r.Range(sc.N/2+1, sc.N)
+		use["stop"], use["partition"], use["loss"] = false, false, false
+		for k := r.Range(2, 4); k > 0; k-- {
+			add(Act{AtMs: at(), Kind: "route", Node: r.Intn(sc.N)})
+		}
+		if r.Bool(70) {
+			n, id := r.Intn(sc.N), sc.BeaconIDs[r.Intn(len(sc.BeaconIDs))]
+			t := at()
+			add(Act{AtMs: t, Kind: "stop_beacon", Node: n, S: id})
+			add(Act{AtMs: t + 300, Kind: "route", Node: n})
+			if r.Bool(60) {
+				add(Act{AtMs: t + int64(r.Range(1, 3))*periodMs, Kind: "load_beacon", Node: n, S: id})
+				add(Act{AtMs: t + 4*periodMs, Kind: "route", Node: n})
+			}
+		}
 	case "C06":
 		sc.DKGOnly = r.Bool(60)
 		sc.N = r.Range(2, 7)
